@@ -79,26 +79,50 @@ var partialParsers = []struct {
 	run  func(b []byte) (interface{}, bool) // value, error?
 }{
 	{"ReadCertificate", func(r *Rng) []byte { return cat([]byte{5, 0, 4}, r.Bytes(4)) }, func(b []byte) (interface{}, bool) { v, _, e := certificate.ReadCertificate(b); return v, e != nil }},
-	{"NewKeyCertificate", func(r *Rng) []byte { return cat([]byte{5, 0, 4, 0, 7, 0, 4}) }, func(b []byte) (interface{}, bool) { v, _, e := key_certificate.NewKeyCertificate(b); return v, e != nil }},
+	{"NewKeyCertificate", func(r *Rng) []byte { return cat([]byte{5, 0, 4, 0, 7, 0, 4}) }, func(b []byte) (interface{}, bool) {
+		v, _, e := key_certificate.NewKeyCertificate(b)
+		return v, e != nil
+	}},
 	{"ReadKeysAndCert", func(r *Rng) []byte { return genAnyIdent(r).Encode() }, func(b []byte) (interface{}, bool) { v, _, e := keys_and_cert.ReadKeysAndCert(b); return v, e != nil }},
-	{"ReadKeysAndCertElgAndEd25519", func(r *Rng) []byte { return genIdentTypes(r, 7, 0, false).Encode() }, func(b []byte) (interface{}, bool) { v, _, e := keys_and_cert.ReadKeysAndCertElgAndEd25519(b); return v, e != nil }},
-	{"ReadKeysAndCertX25519AndEd25519", func(r *Rng) []byte { return genIdentTypes(r, 7, 4, false).Encode() }, func(b []byte) (interface{}, bool) { v, _, e := keys_and_cert.ReadKeysAndCertX25519AndEd25519(b); return v, e != nil }},
+	{"ReadKeysAndCertElgAndEd25519", func(r *Rng) []byte { return genIdentTypes(r, 7, 0, false).Encode() }, func(b []byte) (interface{}, bool) {
+		v, _, e := keys_and_cert.ReadKeysAndCertElgAndEd25519(b)
+		return v, e != nil
+	}},
+	{"ReadKeysAndCertX25519AndEd25519", func(r *Rng) []byte { return genIdentTypes(r, 7, 4, false).Encode() }, func(b []byte) (interface{}, bool) {
+		v, _, e := keys_and_cert.ReadKeysAndCertX25519AndEd25519(b)
+		return v, e != nil
+	}},
 	{"ReadDestination", func(r *Rng) []byte { return genAnyIdent(r).Encode() }, func(b []byte) (interface{}, bool) { v, _, e := destination.ReadDestination(b); return &v, e != nil }},
-	{"NewDestinationFromBytes", func(r *Rng) []byte { return genAnyIdent(r).Encode() }, func(b []byte) (interface{}, bool) { v, _, e := destination.NewDestinationFromBytes(b); return v, e != nil }},
-	{"ReadRouterIdentity", func(r *Rng) []byte { return genAnyIdent(r).Encode() }, func(b []byte) (interface{}, bool) { v, _, e := router_identity.ReadRouterIdentity(b); return v, e != nil }},
+	{"NewDestinationFromBytes", func(r *Rng) []byte { return genAnyIdent(r).Encode() }, func(b []byte) (interface{}, bool) {
+		v, _, e := destination.NewDestinationFromBytes(b)
+		return v, e != nil
+	}},
+	{"ReadRouterIdentity", func(r *Rng) []byte { return genAnyIdent(r).Encode() }, func(b []byte) (interface{}, bool) {
+		v, _, e := router_identity.ReadRouterIdentity(b)
+		return v, e != nil
+	}},
 	{"ReadSignature", func(r *Rng) []byte { return r.Bytes(64) }, func(b []byte) (interface{}, bool) { v, _, e := signature.ReadSignature(b, 7); return &v, e != nil }},
 	{"NewSignature", func(r *Rng) []byte { return r.Bytes(64) }, func(b []byte) (interface{}, bool) { v, _, e := signature.NewSignature(b, 7); return v, e != nil }},
-	{"ReadOfflineSignature", func(r *Rng) []byte { return genOffline(r, 7).Encode() }, func(b []byte) (interface{}, bool) { v, _, e := offline_signature.ReadOfflineSignature(b, 7); return &v, e != nil }},
+	{"ReadOfflineSignature", func(r *Rng) []byte { return genOffline(r, 7).Encode() }, func(b []byte) (interface{}, bool) {
+		v, _, e := offline_signature.ReadOfflineSignature(b, 7)
+		return &v, e != nil
+	}},
 	{"ReadLease", genLease, func(b []byte) (interface{}, bool) { v, _, e := lease.ReadLease(b); return &v, e != nil }},
 	{"ReadLease2", genLease2, func(b []byte) (interface{}, bool) { v, _, e := lease.ReadLease2(b); return &v, e != nil }},
 	{"ReadMapping", func(r *Rng) []byte { return encodeMapping(genKVs(r, 5)) }, func(b []byte) (interface{}, bool) { v, _, e := data.ReadMapping(b); return &v, len(e) > 0 }},
 	{"NewMapping", func(r *Rng) []byte { return encodeMapping(genKVs(r, 5)) }, func(b []byte) (interface{}, bool) { v, _, e := data.NewMapping(b); return v, len(e) > 0 }},
-	{"ReadRouterAddress", func(r *Rng) []byte { return genRouterAddr(r).Encode() }, func(b []byte) (interface{}, bool) { v, _, e := router_address.ReadRouterAddress(b); return &v, e != nil }},
+	{"ReadRouterAddress", func(r *Rng) []byte { return genRouterAddr(r).Encode() }, func(b []byte) (interface{}, bool) {
+		v, _, e := router_address.ReadRouterAddress(b)
+		return &v, e != nil
+	}},
 	{"ReadRouterInfo", func(r *Rng) []byte { return genRouterInfo(r).Encode() }, func(b []byte) (interface{}, bool) { v, _, e := router_info.ReadRouterInfo(b); return &v, e != nil }},
 	{"ReadLeaseSet", func(r *Rng) []byte { return genLeaseSet(r).Encode() }, func(b []byte) (interface{}, bool) { v, e := lease_set.ReadLeaseSet(b); return &v, e != nil }},
 	{"ReadLeaseSet2", func(r *Rng) []byte { return genLeaseSet2(r).Encode() }, func(b []byte) (interface{}, bool) { v, _, e := lease_set2.ReadLeaseSet2(b); return &v, e != nil }},
 	{"ReadMetaLeaseSet", func(r *Rng) []byte { return genMeta(r).Encode() }, func(b []byte) (interface{}, bool) { v, _, e := meta_leaseset.ReadMetaLeaseSet(b); return &v, e != nil }},
-	{"ReadEncryptedLeaseSet", func(r *Rng) []byte { return genEncLS(r).Encode() }, func(b []byte) (interface{}, bool) { v, _, e := encrypted_leaseset.ReadEncryptedLeaseSet(b); return &v, e != nil }},
+	{"ReadEncryptedLeaseSet", func(r *Rng) []byte { return genEncLS(r).Encode() }, func(b []byte) (interface{}, bool) {
+		v, _, e := encrypted_leaseset.ReadEncryptedLeaseSet(b)
+		return &v, e != nil
+	}},
 	{"ReadDate", func(r *Rng) []byte { return r.Bytes(8) }, func(b []byte) (interface{}, bool) { v, _, e := data.ReadDate(b); return &v, e != nil }},
 	{"ReadI2PString", func(r *Rng) []byte { return cat([]byte{9}, r.Bytes(9)) }, func(b []byte) (interface{}, bool) { v, _, e := data.ReadI2PString(b); return &v, e != nil }},
 }
@@ -131,10 +155,12 @@ func runC20(c *Ctx) {
 	// field mutations) of well-formed encodings
 	for _, pp := range partialParsers {
 		pp := pp
-		for k := 0; k < c.N(3, 40); k++ {
+		for k := 0; k < c.N(10, 40); k++ {
+			forceCurrentOffline = k < 3 // the first values: current on the clock, with offline keys
 			w := pp.gen(r)
+			forceCurrentOffline = false
 			cuts := []int{}
-			if len(w) <= 120 || c.Tier == "thorough" {
+			if true { // every truncation point, in both tiers
 				for i := 0; i <= len(w); i++ {
 					cuts = append(cuts, i)
 				}
